@@ -755,9 +755,11 @@ func runWorker(bin string, cfg propCfg, id, tier string, seed, w, n, stride uint
 			infra = append(infra, fmt.Sprintf("worker %d died (%v) at run %d with no classifiable report; stderr: %s", w, err, c.Index, tail(stderr.String(), 3000)))
 			return
 		}
-		c.Type = "violation"
-		c.Violations = []violation{vv}
-		viols = append(viols, c)
+		if vv.Sig != "" {
+			c.Type = "violation"
+			c.Violations = []violation{vv}
+			viols = append(viols, c)
+		}
 		// resume after the fatal run
 		doneRuns := (c.Index-start)/stride + 1
 		sums = append(sums, summaryRec{Runs: int(doneRuns), Probes: map[string]int{}, Faults: map[string]int{}})
@@ -812,6 +814,14 @@ func parseOut(path string) (sums []summaryRec, viols []violationRec) {
 // reports that it cannot (infrastructure). Filled in by the simulators that
 // can die on a finding (SIM-CONC: race reports, runtime fatals, deadlock).
 var classifyCrash = func(id, stderr string) (violation, bool) {
+	if (id == "C02" || id == "C11") && strings.Contains(stderr, "goroutine stack exceeds") {
+		// the loader recursed until the runtime gave up: for C02 that is the termination clause failing;
+		// for C11 the run cannot be judged (empty signature: the batch goes on after it)
+		if id == "C11" {
+			return violation{}, true
+		}
+		return violation{Property: id, Oracle: "termination", Sig: id + "/non-termination:stack-overflow", Detail: "loading recursed until the Go runtime aborted the process (goroutine stack exceeds its limit): " + tail(stderr[strings.Index(stderr, "goroutine stack exceeds"):], 600)}, true
+	}
 	if id != "C15" {
 		return violation{}, false
 	}
